@@ -381,7 +381,7 @@ from the general generator restricted to unacknowledged mode (drop/duplicate/del
     ctx.section = "every-single-and-double-loss".into();
     ctx.drive_list(&part, cases, true);
     ctx.section = "random-unack".into();
-    let n = ctx.tier.pick(20_000u64, 250_000);
+    let n = ctx.tier.pick(20_000u64, 1_500_000);
     ctx.drive_proptest(&part, scenario_strategy(Modes::UnackOnly, 4).prop_map(|sc| C18Case { sc }), n, 200);
     ctx.section.clear();
 }
